@@ -71,6 +71,146 @@ class Listener(ConsumerRebalanceListener):
         self.net.ev("cb_assigned_end", c=self.name, gen=g, member=m, assignment=snap)
 
 
+# ---------------------------------------------------------------------------------------------------
+# Member-side probe (C06 convergence correspondence; active only for scenarios with "probe": true).
+# Installed from outside on the GroupCoordinator class: the wrappers call the original code unchanged and
+# only append events to the simulator trace:
+#   m_send / m_reply / m_err / m_cancel   around GroupCoordinator._send_req (JoinGroup, SyncGroup, Heartbeat,
+#                                         OffsetCommit), m_ck on every change of coordinator_id,
+#   p_req / p_rep                         a group request reaches the broker / its reply leaves the broker,
+#   probe_snapshot                        every probe_period seconds: the coordinator-relevant fields of every
+#                                         consumer (read from the real objects) and the simulated group's state.
+PROBE = {"net": None, "installed": False}
+PROBE_APIS = ("JoinGroupRequest", "SyncGroupRequest", "HeartbeatRequest", "OffsetCommitRequest")
+
+
+def _api_of(request):
+    n = type(request).__name__
+    for a in ("JoinGroup", "SyncGroup", "Heartbeat", "OffsetCommit", "LeaveGroup", "OffsetFetch"):
+        if n.startswith(a):
+            return a
+    return n
+
+
+def install_probe():
+    if PROBE["installed"]:
+        return
+    PROBE["installed"] = True
+    from aiokafka.consumer.group_coordinator import GroupCoordinator as GC
+
+    def name_of(self):
+        try:
+            return self._client._client_id
+        except Exception:  # noqa: BLE001
+            return None
+
+    def get_cid(self):
+        return self.__dict__.get("_probe_coordinator_id")
+
+    def set_cid(self, v):
+        old = self.__dict__.get("_probe_coordinator_id")
+        self.__dict__["_probe_coordinator_id"] = v
+        net = PROBE["net"]
+        if net is not None and old != v:
+            net.ev("m_ck", c=name_of(self), node=v)
+    GC.coordinator_id = property(get_cid, set_cid)
+
+    orig_send = GC._send_req
+
+    async def send_req(self, request):
+        net = PROBE["net"]
+        api = _api_of(request)
+        if net is None or api not in ("JoinGroup", "SyncGroup", "Heartbeat", "OffsetCommit"):
+            return await orig_send(self, request)
+        c = name_of(self)
+        st = self.__dict__.setdefault("_probe_state", {"main": "Idle", "seq": 0, "inflight": {}})
+        st["seq"] += 1
+        seq = st["seq"]
+        mid = getattr(request, "member_id", None)
+        if api == "OffsetCommit":
+            mid = getattr(request, "consumer_id", None)
+        gen = getattr(request, "generation_id", None)
+        if api == "OffsetCommit":
+            gen = getattr(request, "consumer_group_generation_id", None)
+        st["inflight"][api] = {"seq": seq, "mid": mid, "gen": gen, "t": net.loop.time()}
+        if api == "JoinGroup":
+            st["main"] = "JoinSent"
+        elif api == "SyncGroup":
+            st["main"] = "SyncSent"
+        net.ev("m_send", c=c, api=api, member=mid, gen=gen, seq=seq, known=self.coordinator_id is not None)
+        try:
+            resp = await orig_send(self, request)
+        except asyncio.CancelledError:
+            st["inflight"].pop(api, None)
+            net.ev("m_cancel", c=c, api=api, seq=seq)
+            raise
+        except BaseException as e:  # noqa: BLE001
+            st["inflight"].pop(api, None)
+            if api in ("JoinGroup", "SyncGroup"):
+                st["main"] = "Idle"
+            net.ev("m_err", c=c, api=api, seq=seq, exc=type(e).__name__)
+            raise
+        st["inflight"].pop(api, None)
+        if api == "OffsetCommit":
+            codes = sorted({ec for _t, ps in resp.topics for _p, ec in ps})
+            code = next((x for x in codes if x), 0)
+            net.ev("m_reply", c=c, api=api, seq=seq, code=code, codes=codes)
+        else:
+            code = resp.error_code
+            if api == "JoinGroup":
+                st["main"] = "Joined" if code == 0 else "Idle"
+                net.ev("m_reply", c=c, api=api, seq=seq, code=code, gen=resp.generation_id, member=resp.member_id,
+                       leader=resp.leader_id)
+            else:
+                if api == "SyncGroup":
+                    # "Assigned": SyncGroup succeeded, _on_join_complete running, heartbeat task not yet started
+                    st["main"] = "Assigned" if code == 0 else "Idle"
+                net.ev("m_reply", c=c, api=api, seq=seq, code=code)
+        return resp
+    GC._send_req = send_req
+
+    for meth in ("coordinator_dead", "request_rejoin", "reset_generation", "_start_heartbeat_task"):
+        def mk(meth):
+            orig = getattr(GC, meth)
+
+            def w(self, *a, **k):
+                net = PROBE["net"]
+                if net is not None:
+                    net.ev("m_call", c=name_of(self), fn=meth)
+                    if meth == "_start_heartbeat_task":
+                        st = self.__dict__.get("_probe_state")
+                        if st and st["main"] == "Assigned":
+                            st["main"] = "Idle"
+                return orig(self, *a, **k)
+            return w
+        setattr(GC, meth, mk(meth))
+
+
+def probe_member_snapshot(name, consumer):
+    co = getattr(consumer, "_coordinator", None)
+    if co is None or not hasattr(co, "_rejoin_needed_fut"):
+        return {"name": name, "group": False}
+    st = co.__dict__.get("_probe_state") or {"main": "Idle", "inflight": {}}
+    sub = co._subscription.subscription
+    hb = co._heartbeat_task
+    return {"name": name, "group": True, "member": co.member_id, "gen": co.generation,
+            "node": co.coordinator_id, "rejoin": co._rejoin_needed_fut.done(),
+            "no_assignment": sub is None or sub.assignment is None,
+            "hb": hb is not None and not hb.done(), "hb_slot": hb is not None,
+            "closing": co._closing.done(), "coord_task_done": co._coordination_task.done(),
+            "main": st["main"], "inflight": {k: dict(v) for k, v in st["inflight"].items()}}
+
+
+def probe_group_snapshot(net, gid):
+    g = net.gc.groups.get(gid)
+    if g is None:
+        return None
+    return {"state": g.state, "generation": g.generation, "leader": g.leader, "pending": sorted(g.pending_ids),
+            "coordinator": net.group_coordinator_node, "loading": bool(net.gc.loading),
+            "members": {mid: {"join": m.get("join_cb") is not None, "sync": m.get("sync_cb") is not None}
+                        for mid, m in g.members.items()}}
+
+
 API_ERROR_CODES = {
     "FindCoordinator": [15],
     "JoinGroup": [14, 15, 16, 25],
@@ -142,6 +282,44 @@ def run_scenario(sc):
         consumers = {}
         results = {}
         net.fault_counter["on"] = True
+        PROBE["net"] = None
+        if sc.get("probe"):
+            install_probe()
+            PROBE["net"] = net
+            net.loop = loop
+            ord_client = {}
+
+            def probe_on_request(info):
+                if info["api"] in ("JoinGroup", "SyncGroup", "Heartbeat", "OffsetCommit", "LeaveGroup"):
+                    o = info["req"]
+                    ord_client[info["ordinal"]] = info.get("client")
+                    net.ev("p_req", c=info.get("client"), api=info["api"], ordinal=info["ordinal"], node=info["node"],
+                           version=info["version"], member=o.get("member_id", o.get("consumer_id")),
+                           gen=o.get("generation_id", o.get("consumer_group_generation_id")),
+                           right_node=info["node"] == net.group_coordinator_node)
+            net.on_request = probe_on_request
+            orig_send_reply = net.send_reply
+
+            def probe_send_reply(tr, cls, corr, resp_obj, delay, info):
+                if info["api"] in ("JoinGroup", "SyncGroup", "Heartbeat", "OffsetCommit") and isinstance(resp_obj, dict):
+                    if info["api"] == "OffsetCommit":
+                        codes = sorted({p["error_code"] for t in resp_obj.get("topics", []) for p in t["partitions"]})
+                        code = next((x for x in codes if x), 0)
+                    else:
+                        code = resp_obj.get("error_code")
+                    net.ev("p_rep", c=info.get("client"), api=info["api"], ordinal=info["ordinal"], code=code,
+                           gen=resp_obj.get("generation_id"), member=resp_obj.get("member_id"))
+                return orig_send_reply(tr, cls, corr, resp_obj, delay, info)
+            net.send_reply = probe_send_reply
+            period = sc.get("probe_period", 0.25)
+
+            def snapshot():
+                net.ev("probe_snapshot", members=[probe_member_snapshot(n, c) for n, c in consumers.items()],
+                       killed=sorted(n for n, r in results.items() if r.get("killed")),
+                       stopping=sorted(n for n, r in results.items() if r.get("stopping")),
+                       group=probe_group_snapshot(net, sc.get("probe_group", "g")))
+                loop.call_later(period, snapshot)
+            loop.call_later(period, snapshot)
 
         def cluster_event(e):
             op = e["op"]
@@ -258,6 +436,7 @@ def run_scenario(sc):
                         net.ev("subscribe", c=name, topics=op[1])
                     elif kind == "stop":
                         t0 = loop.time()
+                        res["stopping"] = True
                         net.ev("stop_call", c=name)
                         before = set(asyncio.all_tasks(loop))
                         try:
@@ -344,6 +523,9 @@ def run_scenario(sc):
                 "commit_ret", "subscribe", "cluster_event", "join_request", "join_complete", "sync_request",
                 "sync_complete", "heartbeat", "leave_request", "offset_commit", "session_expired",
                 "prepare_rebalance", "coordinator_move", "member_dropped_at_rebalance_timeout", "member_id_assigned")
+        if sc.get("probe"):
+            keep = keep + ("m_send", "m_reply", "m_err", "m_cancel", "m_ck", "m_call", "p_req", "p_rep", "probe_snapshot")
+            PROBE["net"] = None
         out["trace"] = [e for e in net.trace if e["ev"] in keep or (e["ev"] == "request" and (e["api"] in (
             "JoinGroup", "SyncGroup", "LeaveGroup", "OffsetCommit", "FindCoordinator") or e.get("fault")))]
         out["vtime"] = loop.time()
